@@ -241,11 +241,16 @@ class Real:
         except OSError:
             return None
 
-    def observe(self):
+    def observe_ds(self):
         m = self.m
         ds = [{"k": k, "status": d.status.name, "size": d.size, "created": d.created, "first": d.retrieved_first,
                "last": d.retrieved_last, "readers": [[r, t] for r, t in d.ongoing_reads.items()],
                "delayed": bool(d.delayed_purge), "deser": d.deser_fun} for k, d in m.datasets.items()]
+        return ds
+
+    def observe(self):
+        m = self.m
+        ds = self.observe_ds()
         jobs = [{"id": i, "kind": j["kind"], "k": self.name2key.get(j["args"][0], "?" + j["args"][0]), "io": j["io"]}
                 for i, j in sorted(self.jobs.pending.items())]
         return {"free": m.free_space, "cap": m.capacity, "lock": m.pageout_all.locked(), "count": m.pageout_count,
@@ -257,7 +262,9 @@ class Real:
         left = []
         try:
             root = self.m.disk.root.name
-            self.m.atexit()
+            if not self.exited:
+                self.exited = True
+                self.m.atexit()
         except Exception:
             root = None
         for n in os.listdir("/dev/shm"):
@@ -281,6 +288,8 @@ def model_state(obs):
 
 
 OP_DEADLINE_S = 10
+ATEXIT_LINE = False     # C05 sets it: every history ends with the server's exit handler, compared with the model's `atexit`
+C05_KINDS = ("segments-left-after-atexit",)
 
 
 class _Blocked(BaseException):
@@ -633,7 +642,7 @@ class Runner:
             self._stat("retry:granted" if out == "granted" else "retry:refused")
         return out
 
-    def finish(self):
+    def _close_handles(self):
         for g in self.grants:
             if g["buf"] is not None and g["buf"].shm is not None:
                 try:
@@ -646,6 +655,30 @@ class Runner:
                     r["buf"].shm.close()
                 except Exception:
                     pass
+
+    def _op_atexit(self, op):
+        """the shm server's exit handler (ShutdownCommand / SIGTERM -> Manager.atexit) at the end of the history, with
+        whatever readers, writers, delayed purges and disk jobs the history left behind (C05: no segment may survive)"""
+        self._close_handles()
+        self.real.exited = True
+        self.real.m.atexit()
+        m = self.real.m
+        segs = self.real._dir("/dev/shm", self.real.prefix)
+        full = self.real.observe_ds()
+        self.lines.append({"op": "atexit"})
+        self.outs.append({"out": "atexit", "st": {"segs": segs, "ds": full}})
+        self.nops += 1
+        self._stat("op:atexit")
+        if any(d["readers"] for d in self.outs[-2]["st"]["ds"]):
+            self._stat("atexit:with-registered-readers")
+        if segs:
+            self._flag("segments-left-after-atexit", f"after Manager.atexit the segments {[x[0] for x in segs]} are still in /dev/shm "
+                       f"(datasets still known: {[(d['k'], d['status'], len(d['readers'])) for d in full]})")
+
+    def finish(self):
+        if ATEXIT_LINE and not getattr(self, "deadlocked", False):
+            self.apply({"op": "atexit"})
+        self._close_handles()
         return self.real.shutdown()
 
 
